@@ -37,4 +37,4 @@ with open(os.path.join(VERIF, "seeded", "RESULTS.md"), "w") as f:
     f.write("# Seeded changes re-run against the current quick checks (tools/reseed_all.py)\n\n| seed | property | seed valid | verdicts | disposition | first witness |\n|---|---|---|---|---|---|\n")
     for r in rows:
         f.write("| " + " | ".join(str(x) for x in r) + " |\n")
-print("%d seeds; not caught by own check: %s" % (len(rows), [r[0] for r in rows if not r[2].startswith("neutralised") and "caught" not in r[3].split(",")[0]]))
+print("%d seeds; not caught by own check: %s" % (len(rows), [r[0] for r in rows if not r[2].startswith("neutralised") and (r[1] + ":caught") not in r[3]]))
